@@ -145,6 +145,10 @@ type Opts struct {
 	AsRaw  []string `json:"asraw,omitempty"` // bad-input grammar: "nil","int","ptrstruct","T0"...
 	Export bool     `json:"export,omitempty"`
 	Info   bool     `json:"info,omitempty"`
+	// InfoSlot > 0: the Info struct is shared with every other op of the same
+	// kind (Provide / Decorate / Invoke) that names the same slot, i.e. one
+	// struct is reused for several calls; 0: a fresh pre-filled struct.
+	InfoSlot int `json:"infoslot,omitempty"`
 	CB     bool     `json:"cb,omitempty"`
 	LocPC  string   `json:"locpc,omitempty"` // "", "zero", "self", "junk"
 }
@@ -264,7 +268,11 @@ func (o *Opts) Short() string {
 		parts = append(parts, "Export")
 	}
 	if o.Info {
-		parts = append(parts, "Info")
+		if o.InfoSlot > 0 {
+			parts = append(parts, fmt.Sprintf("Info#%d", o.InfoSlot))
+		} else {
+			parts = append(parts, "Info")
+		}
 	}
 	if o.CB {
 		parts = append(parts, "Callback")
